@@ -417,6 +417,16 @@ func (e *MetaExecutor) CreateIterator(nodeID uint64, shardIDs []uint64, ctx cont
 		return nil, err
 	}
 
+	if resp.Type == influxql.Unknown {
+		// The remote node has nothing to stream for these shards. Do not hand
+		// out an (empty) float iterator for it: merging coerces all inputs to the
+		// type of the first one, so an empty reply that happens to arrive first
+		// would make the integer, string or boolean streams of the other nodes
+		// be dropped and the query return nothing.
+		conn.Close()
+		return nil, nil
+	}
+
 	return query.NewReaderIterator(ctx, conn, resp.Type, resp.Stats), nil
 }
 
